@@ -34,6 +34,13 @@ pub struct SimSpec {
     pub batches: Vec<Batch>,
     /// crash this many steps after the first submission
     pub crash_after: Option<u64>,
+    /// tick duration (ms); 0 = the default 1 ms
+    pub tick_ms: u64,
+    /// sleep this long before the first submission (submit in mid-tick)
+    pub pre_sleep_ms: u64,
+    /// poll the CQ every N ms instead of awaiting AsyncFd::readable, and judge
+    /// the latency on the host's own clock (directed scenario only)
+    pub poll_ms: Option<u64>,
 }
 
 impl SimSpec {
@@ -41,6 +48,7 @@ impl SimSpec {
         json!({
             "cfg": self.cfg.to_json(), "seed": self.seed, "depth": self.depth, "nfiles": self.nfiles,
             "crash_after": self.crash_after,
+            "tick_ms": self.tick_ms, "pre_sleep_ms": self.pre_sleep_ms, "poll_ms": self.poll_ms,
             "batches": self.batches.iter().map(|b| json!({
                 "sqes": b.sqes.iter().map(|(ud,k,f)| RAct::Push{ring:0,ud:*ud,kind:k.clone(),flag:*f}.to_json()).collect::<Vec<_>>(),
                 "cancels": b.cancels.iter().map(|(u,t)| json!([u,t])).collect::<Vec<_>>(),
@@ -54,6 +62,9 @@ impl SimSpec {
             depth: v["depth"].as_u64().unwrap_or(4) as u32,
             nfiles: v["nfiles"].as_u64().unwrap_or(1) as usize,
             crash_after: v["crash_after"].as_u64(),
+            tick_ms: v["tick_ms"].as_u64().unwrap_or(0),
+            pre_sleep_ms: v["pre_sleep_ms"].as_u64().unwrap_or(0),
+            poll_ms: v["poll_ms"].as_u64(),
             batches: v["batches"]
                 .as_array()
                 .map(|a| {
@@ -92,8 +103,8 @@ impl SimSpec {
 
 #[derive(Clone, Debug)]
 enum Ev {
-    Submitted { uds: Vec<(u64, SqKind, u8)>, step: u64, accepted: usize },
-    Cqe { ud: u64, res: i32, step: u64, data: Option<Vec<u8>> },
+    Submitted { uds: Vec<(u64, SqKind, u8)>, step: u64, accepted: usize, host_ns: u64 },
+    Cqe { ud: u64, res: i32, step: u64, data: Option<Vec<u8>>, host_ns: u64 },
     Wait,
     Files { contents: Vec<Obs> },
     PostCrash { sweep: Vec<Obs> },
@@ -179,6 +190,10 @@ async fn program(spec: Arc<SimSpec>, sh: Arc<Mutex<Shared>>, step: Arc<AtomicU64
         }
     };
     // after a crash: one read per file through the fresh ring
+    let t0 = tokio::time::Instant::now();
+    if phase == 0 && spec.pre_sleep_ms > 0 {
+        tokio::time::sleep(Duration::from_millis(spec.pre_sleep_ms)).await;
+    }
     let batches: Vec<Batch> = if phase == 0 {
         spec.batches.clone()
     } else {
@@ -254,6 +269,7 @@ async fn program(spec: Arc<SimSpec>, sh: Arc<Mutex<Shared>>, step: Arc<AtomicU64
                 uds: g.clone(),
                 step: step.load(Ordering::SeqCst),
                 accepted,
+                host_ns: t0.elapsed().as_nanos() as u64,
             });
             sh.lock().unwrap().first_submit = true;
         }
@@ -276,6 +292,7 @@ async fn program(spec: Arc<SimSpec>, sh: Arc<Mutex<Shared>>, step: Arc<AtomicU64
                         res: e.result(),
                         step: step.load(Ordering::SeqCst),
                         data: bufs.get(&ud).cloned(),
+                        host_ns: t0.elapsed().as_nanos() as u64,
                     });
                 }
             }
@@ -283,6 +300,10 @@ async fn program(spec: Arc<SimSpec>, sh: Arc<Mutex<Shared>>, step: Arc<AtomicU64
                 break;
             }
             log(Ev::Wait);
+            if let Some(p) = spec.poll_ms {
+                tokio::time::sleep(Duration::from_millis(p)).await;
+                continue;
+            }
             match tokio::time::timeout(Duration::from_secs(5), afd.readable()).await {
                 Ok(Ok(_g)) => {}
                 Ok(Err(e)) => {
@@ -309,7 +330,7 @@ async fn program(spec: Arc<SimSpec>, sh: Arc<Mutex<Shared>>, step: Arc<AtomicU64
 }
 
 pub fn run_sim(spec: &SimSpec, st: &mut RStats) -> Option<Complaint> {
-    let tick = Duration::from_millis(1);
+    let tick = Duration::from_millis(spec.tick_ms.max(1));
     let tick_ns = tick.as_nanos() as u64;
     let mut sim = simdrv::builder_for(&spec.cfg, spec.seed, tick).build();
     let sh = Arc::new(Mutex::new(Shared {
@@ -421,6 +442,7 @@ pub fn run_sim(spec: &SimSpec, st: &mut RStats) -> Option<Complaint> {
     let max_steps_lat = (spec.cfg.lat.max().as_nanos() as u64).div_ceil(tick_ns);
     let clock = |s: u64| s.saturating_sub(1) * tick_ns;
     let mut submit_step: std::collections::BTreeMap<u64, u64> = Default::default();
+    let mut submit_host: std::collections::BTreeMap<u64, u64> = Default::default();
     for (li, ev) in log.iter().enumerate() {
         if Some(li) == crashed_at_log {
             st.add(
@@ -443,8 +465,11 @@ pub fn run_sim(spec: &SimSpec, st: &mut RStats) -> Option<Complaint> {
                 };
                 return fail(class, format!("in-sim: {e}"));
             }
-            Ev::Submitted { uds, step, accepted } => {
+            Ev::Submitted { uds, step, accepted, host_ns } => {
                 m.now = clock(*step);
+                for (ud, _, _) in uds {
+                    submit_host.insert(*ud, *host_ns);
+                }
                 for (ud, kind, flag) in uds {
                     if m.push(0, *ud, kind, *flag).is_err() {
                         return fail("push-result", format!("in-sim: model queue full at ud {ud}"));
@@ -467,7 +492,25 @@ pub fn run_sim(spec: &SimSpec, st: &mut RStats) -> Option<Complaint> {
                 }
             }
             Ev::Wait => st.inc("sim_asyncfd_waits"),
-            Ev::Cqe { ud, res, step, data } => {
+            Ev::Cqe { ud, res, step, data, host_ns } => {
+                if spec.poll_ms.is_some() {
+                    // latency on the host's own clock (what the software sees)
+                    if let Some(inf) = m.rings[0].inflight.get(ud) {
+                        let lmin = spec.cfg.lat.min().as_nanos() as u64;
+                        let waited = host_ns.saturating_sub(submit_host.get(ud).copied().unwrap_or(0));
+                        if !inf.cancelled && inf.fixed.is_none() && waited < lmin {
+                            return fail(
+                                "cqe-early-host-clock",
+                                format!(
+                                    "in-sim: ud {ud} ({:?}) was visible {waited} ns after submit() on the host's clock, configured latency {lmin} ns (submitted {} ns into a {} ms tick)",
+                                    inf.e.kind,
+                                    submit_host.get(ud).copied().unwrap_or(0) % (tick_ns),
+                                    spec.tick_ms.max(1)
+                                ),
+                            );
+                        }
+                    }
+                }
                 st.inc("cqes");
                 st.inc("sim_cqes");
                 m.now = clock(*step);
@@ -612,6 +655,8 @@ fn gen_spec(rng: &mut Rng) -> SimSpec {
         fs_seed: 0,
         capacity: None,
         dio_align: None,
+        rw_modes: false,
+        io_err: 0.0,
     };
     let nfiles = rng.range(1, 2) as usize;
     let mut next = 1u64;
@@ -657,7 +702,69 @@ fn gen_spec(rng: &mut Rng) -> SimSpec {
         } else {
             None
         },
+        tick_ms: 1,
+        pre_sleep_ms: 0,
+        poll_ms: None,
     }
+}
+
+/// Directed in-Sim scenarios (hunted C18-1): submission in the middle of a
+/// 10 ms tick, fixed 5 ms latency, CQ polled every simulated millisecond.
+pub fn directed() -> Vec<(&'static str, SimSpec)> {
+    vec![(
+        "mid-tick-submit",
+        SimSpec {
+            cfg: Cfg {
+                lat: Lat::Fixed(5000),
+                ..Cfg::default()
+            },
+            seed: 1,
+            depth: 4,
+            nfiles: 1,
+            batches: vec![Batch {
+                sqes: vec![(
+                    1,
+                    SqKind::Write {
+                        file: 0,
+                        off: 0,
+                        n: 4,
+                        key: 3,
+                    },
+                    0,
+                )],
+                cancels: vec![],
+            }],
+            crash_after: None,
+            tick_ms: 10,
+            pre_sleep_ms: 9,
+            poll_ms: Some(1),
+        },
+    )]
+}
+
+pub fn scenario_directed(_ctx: &Ctx, idx: u64) -> ScenarioOut {
+    let all = directed();
+    let (name, spec) = &all[idx as usize];
+    let mut out = ScenarioOut::default();
+    let mut st = RStats::default();
+    out.count("sim_directed", 1);
+    let c = run_sim(spec, &mut st);
+    if let Some(c) = &c {
+        out.violate(
+            &c.class,
+            format!("{}|sim-directed|{name}", c.class),
+            c.what.clone(),
+            json!({"kind":"sim","directed":name,"spec":spec.to_json()}),
+        );
+    }
+    for (k, v) in &st.c {
+        out.count(k, *v);
+    }
+    out.nontrivial = true;
+    out.digest = vcore::digest_str(&format!("sim-directed:{name}"));
+    out.sample = Some(json!({"kind":"sim-directed","name":name,"spec":spec.to_json(),
+        "verdict": if c.is_some() {"complaint"} else {"conforms"}}));
+    out
 }
 
 pub fn scenario(ctx: &Ctx, idx: u64) -> ScenarioOut {
